@@ -17,7 +17,7 @@ import time
 import traceback
 from dataclasses import dataclass, field
 from pathlib import Path
-from typing import Any, Callable, Dict, List, Optional
+from typing import Any, Callable, Dict, List, Optional, Tuple
 
 import z3
 
@@ -561,15 +561,94 @@ def _solve_job(d: Dict[str, Any]) -> OblResult:
         return OblResult(d['name'], d['kind'], 'unknown', 'z3', 0.0, detail='solver worker crashed: ' + traceback.format_exc()[-300:], meta=d.get('meta', {}))
 
 
+def _pool_worker(sers: List[Dict[str, Any]], tasks: Any, results: Any) -> None:
+    while True:
+        idx = tasks.get()
+        if idx is None:
+            return
+        results.put(('start', idx, os.getpid(), None))
+        try:
+            r = _solve_job(sers[idx])
+        except Exception as e:  # a solver front-end error is an undecided obligation, never a verdict
+            d = sers[idx]
+            r = OblResult(d['name'], d['kind'], 'unknown', 'z3', 0.0, detail=f'solver front end raised {type(e).__name__}: {e}', meta=d['meta'])
+        results.put(('done', idx, os.getpid(), r))
+
+
 def discharge_pool(sers: List[Dict[str, Any]], procs: Optional[int] = None) -> List[OblResult]:
+    """One pool over all obligations.  Workers are plain processes watched by this process: z3 occasionally ignores
+    its own timeout (observed: minutes inside big-number multiplication on a query it decides in seconds the next
+    time), so a query that has not returned after HARD_LIMIT is abandoned by killing its worker - the obligation
+    becomes `unknown` (undecided), never a verdict - and a fresh worker takes its place."""
     import multiprocessing as mp
+    import queue as _q
+    import signal
 
     procs = procs or min(16, os.cpu_count() or 4)
     if os.environ.get('VERIF_SERIAL') == '1' or len(sers) < 4:
         return [_solve_job(d) for d in sers]
+    hard_limit = 6.0 * (Z3_TIMEOUT_MS / 1000.0) + 3.0 * CVC5_TIMEOUT_S
     ctx = mp.get_context('fork')
-    with ctx.Pool(procs) as pool:
-        return pool.map(_solve_job, sers, chunksize=max(1, min(8, len(sers) // (procs * 8) or 1)))
+    tasks, results = ctx.Queue(), ctx.Queue()
+    for i in range(len(sers)):
+        tasks.put(i)
+    workers: Dict[int, Any] = {}
+
+    def spawn() -> None:
+        p = ctx.Process(target=_pool_worker, args=(sers, tasks, results), daemon=True)
+        p.start()
+        workers[p.pid] = p
+
+    for _ in range(min(procs, len(sers))):
+        spawn()
+    out: List[Optional[OblResult]] = [None] * len(sers)
+    running: Dict[int, Tuple[int, float]] = {}  # pid -> (task index, start time)
+    done = 0
+    while done < len(sers):
+        try:
+            kind, idx, pid, r = results.get(timeout=5.0)
+            if kind == 'start':
+                running[pid] = (idx, time.time())
+            else:
+                running.pop(pid, None)
+                if out[idx] is None:
+                    out[idx] = r
+                    done += 1
+        except _q.Empty:
+            pass
+        now = time.time()
+        for pid, (idx, t0) in list(running.items()):
+            if now - t0 > hard_limit:
+                try:
+                    os.kill(pid, signal.SIGKILL)
+                except OSError:
+                    pass
+                running.pop(pid, None)
+                w = workers.pop(pid, None)
+                if w is not None:
+                    w.join(timeout=5)
+                if out[idx] is None:
+                    d = sers[idx]
+                    out[idx] = OblResult(d['name'], d['kind'], 'unknown', 'z3', now - t0, detail=f'solver did not return within the hard limit of {hard_limit:.0f} s (worker killed)', meta=d['meta'])
+                    done += 1
+                spawn()
+        # a worker that died on its own (out of memory, ...) loses its task: account for it
+        for pid, w in list(workers.items()):
+            if not w.is_alive() and pid in running:
+                idx, t0 = running.pop(pid)
+                workers.pop(pid, None)
+                if out[idx] is None:
+                    d = sers[idx]
+                    out[idx] = OblResult(d['name'], d['kind'], 'unknown', 'z3', now - t0, detail='solver process died', meta=d['meta'])
+                    done += 1
+                spawn()
+    for _ in workers:
+        tasks.put(None)
+    for w in workers.values():
+        w.join(timeout=2)
+        if w.is_alive():
+            w.kill()
+    return [r for r in out if r is not None]
 
 
 def finish_unit(eng: Any, extra: List[Obl]) -> Dict[str, Any]:
